@@ -57,7 +57,7 @@ theorem readByLine_specRun {cfg : Config} (m : MatcherI) (σ : Script) (h : NoCt
       dsimp only at hend
       subst hend
       dsimp only
-      have hf := finish_eq σ s'.core (lineRun cfg m σ 1 0 (ln0 cfg) false ls).endOff s'.lb.binOff
+      have hf := finish_events σ s'.core (lineRun cfg m σ 1 0 (ln0 cfg) false ls).endOff s'.lb.binOff
       simp only [Run.events]
       rw [hf.1, hf.2, hev, hbo]
       exact ⟨by simp, by simp [Nat.add_comm]⟩
@@ -67,7 +67,7 @@ theorem readByLine_specRun {cfg : Config} (m : MatcherI) (σ : Script) (h : NoCt
       obtain ⟨hres, habs⟩ := hend
       subst hres
       dsimp only
-      have hf := finish_eq σ s'.core s'.lb.abs s'.lb.binOff
+      have hf := finish_events σ s'.core s'.lb.abs s'.lb.binOff
       simp only [Run.events]
       rw [hf.1, hf.2, hev, hbo, habs]
       exact ⟨by simp, by simp [Nat.add_comm]⟩
@@ -77,7 +77,7 @@ theorem readByLine_specRun {cfg : Config} (m : MatcherI) (σ : Script) (h : NoCt
     rw [if_neg (by decide)]
     dsimp only
     refine ⟨_, hsplit.1, hsplit.2, ?_⟩
-    have hf := finish_eq σ ({ Core.new cfg false with events := (Core.new cfg false).events ++ [Event.begin] } : Core)
+    have hf := finish_events σ ({ Core.new cfg false with events := (Core.new cfg false).events ++ [Event.begin] } : Core)
       (LB.init lbcfg).abs (LB.init lbcfg).binOff
     simp only [Run.events]
     rw [hf.1, hf.2]
